@@ -12,7 +12,10 @@ FAMILY = {"R1": "C01 C02 C03 C16 C07 C08", "R2": "C04 C05 C06 C07 C08 C20", "R3"
           "P1": "C01 C02 C03 C16 C08 C07 C15", "P2": "C04 C05 C06 C07 C08 C14 C20 C19", "P3": "C09 C10 C11 C12 C14 C05 C20 C18",
           "P4": "C13 C19 C14 C20 C07", "P5": "C15 C18 C05 C11 C14 C16 C19", "P6": "C17 C06 C15 C20 C05 C19 C16 C04",
           "Q1": "C01 C02 C03 C16 C08 C07 C15", "Q2": "C04 C05 C06 C07 C08 C14 C20 C19", "Q3": "C09 C10 C11 C12 C14 C05 C20 C18",
-          "Q4": "C13 C19 C14 C20 C07", "Q5": "C15 C18 C05 C11 C14 C16 C19 C12", "Q6": "C17 C06 C15 C20 C05 C19 C16 C04"}
+          "Q4": "C13 C19 C14 C20 C07", "Q5": "C15 C18 C05 C11 C14 C16 C19 C12", "Q6": "C17 C06 C15 C20 C05 C19 C16 C04",
+          # S*: third generation of such changes (aimed at what a monitor may have over-fitted to)
+          "S1": "C01 C02 C03 C16 C08 C07 C15 C04", "S2": "C04 C05 C06 C07 C08 C14 C20 C19", "S3": "C09 C10 C11 C12 C14 C05 C20 C18",
+          "S4": "C13 C19 C14 C20 C07 C18", "S5": "C15 C18 C05 C11 C14 C16 C19 C12", "S6": "C17 C06 C15 C20 C05 C19 C16 C04"}
 
 
 def sh(cmd, **kw):
